@@ -1,7 +1,7 @@
 (* Save_endtoend.v — C03: the function save() itself, for objects without segments: from the object as the user built
    it (or loaded and requested it) to the bytes in the stream.  save() returns true and the stream holds the ELF
    header, every section header record and every section's data verbatim at their places. *)
-From ElfioV Require Import Bytes Mem Stream SectionData SectionData_proofs Strings Elfio Table Loader Layout Writer
+From ElfioV Require Import Bytes Mem Stream Stream_proofs SectionData SectionData_proofs Strings Elfio Table Loader Layout Writer
      Ostream_proofs Codec_proofs Layout_proofs Writer_proofs ByName_proofs Save_twice
      Segment_proofs Oneseg_proofs Oneseg_writer.
 From Coq Require Import ZifyBool ZifyN ZifyNat.
@@ -167,6 +167,102 @@ Section EndToEnd.
     - intros s b Hin Hd. destruct (W1 s Hin) as (_ & _ & D). now apply D.
   Qed.
 End EndToEnd.
+
+(* ---------- C16 at the level of save(): a sink with a byte capacity ---------- *)
+Section Capped.
+  Variable junk : N -> N.
+
+  Lemma save_header_new h c :
+    save_header h [] (new_ostream c) =
+      (exec_write (new_ostream c) (0, ehdr_bytes h), negb (os_bad (exec_write (new_ostream c) (0, ehdr_bytes h)))).
+  Proof. reflexivity. Qed.
+
+  Lemma bad_sticky_plan p : forall s, os_bad s = true -> os_bad (exec_plan s p) = true.
+  Proof.
+    induction p as [|w t IH]; intros s H; cbn [exec_plan fold_left]; [exact H|].
+    apply IH. unfold exec_write. now apply bad_sticky_write, bad_sticky_adjust.
+  Qed.
+
+  Lemma plan_small_no_huge p : forall s, stream_ok s -> good s -> plan_small (os_len s) p -> plan_no_huge s p.
+  Proof.
+    induction p as [|w t IH]; intros s Hok Hg Hp; cbn [plan_no_huge]; [exact I|].
+    destruct Hp as [Hw Ht]. split; [exact Hw|].
+    destruct (exec_write_flat s w Hok Hg Hw) as (Ok1 & G1 & L1 & _). cbv zeta in *.
+    apply IH; [exact Ok1|exact G1|rewrite L1; exact Ht].
+  Qed.
+
+  (* save() of an object without segments into a sink that accepts k bytes: true, with the complete file, when the
+     file fits; never true when it does not *)
+  Theorem save_noseg_capped el0 h0 bound k :
+    el_hdr el0 = Some h0 -> el_segs el0 = [] -> el_xlat el0 = [] -> el_compr el0 = false ->
+    Forall writable (el_secs el0) ->
+    bound <= 2 ^ 63 -> Forall (fun s => bound <= 2 ^ xw (s_cls s)) (el_secs el0) ->
+    e_ehsize h0 + budget (el_secs el0) + 16 < bound ->
+    exists el1 h',
+      layout el0 = Ok (el1, true) /\ el_hdr el1 = Some h' /\
+      (plan_small 0 (noseg_plan h' (el_secs el1)) ->
+       let full := exec_plan (new_ostream None) (noseg_plan h' (el_secs el1)) in
+       (os_len full <= k ->
+          exists os, save junk el0 (new_ostream (Some k)) = Ok (el1, os, true) /\ os_bytes os = os_bytes full) /\
+       (k < os_len full ->
+          forall el2 os, save junk el0 (new_ostream (Some k)) <> Ok (el2, os, true))).
+  Proof.
+    intros Hh Hs Hx Hcm W Hb Hc Hbud.
+    destruct (layout_noseg el0 h0 bound Hh Hs ltac:(lia) Hc Hbud) as (el1 & secs' & h' & pos' & L1 & Es & Eg & Eh & K & Ch & Hh' & Le & _).
+    exists el1, h'. split; [exact L1|]. split; [exact Eh|]. intros Hsmall. cbv zeta.
+    destruct (layout_keeps_env _ _ _ L1) as (X1 & X2 & X3).
+    assert (Q0 : Forall quiet (el_secs el0)).
+    { eapply Forall_impl; [|exact W]. intros s (_ & Q & _). exact Q. }
+    assert (W1 : Forall writable (el_secs el1)).
+    { rewrite Es. clear - K W junk. induction K as [|s s' t t' Hk HK IH]; [constructor|]. inversion W; subst.
+      constructor; [eapply keeps_writable; eauto|auto]. }
+    assert (Hso : e_shoff h' < 2 ^ 63).
+    { assert (E : e_shoff h' = wrap (xw (e_cls h0)) (pos' + (16 - pos' mod 16))) by (rewrite Hh'; destruct h0; reflexivity).
+      rewrite E. unfold wrap.
+      eapply N.le_lt_trans; [apply N.mod_le; apply N.pow_nonzero; lia|].
+      assert (pos' mod 16 < 16) by (apply N.mod_lt; lia). lia. }
+    set (plan := noseg_plan h' (el_secs el1)) in *.
+    set (sc := new_ostream (Some k)). set (su := new_ostream None).
+    destruct new_ostream_ok as [Ok0 G0].
+    assert (HNH : plan_no_huge su plan) by (apply plan_small_no_huge; assumption).
+    assert (HS0 : in_step k sc su) by (unfold in_step, sc, su, new_ostream; cbn; repeat split; lia).
+    destruct (exec_plan_sim k plan sc su HS0 HNH) as [SIM OVF].
+    (* what save() computes, in terms of the plan executed on the capped stream *)
+    set (w0 := (0, ehdr_bytes h')).
+    set (plan_s := flat_map (sec_writes (e_enc h') (e_shoff h') (e_shentsize h')) (el_secs el1)).
+    assert (Eplan : exec_plan (exec_write sc w0) plan_s = exec_plan sc plan) by reflexivity.
+    assert (SV : save junk el0 sc =
+                 (if negb (negb (os_bad (exec_write sc w0))) then Ok (el1, exec_write sc w0, false)
+                  else if os_abort (exec_plan sc plan) then Fault Abort
+                  else if os_bad (exec_plan sc plan) then Ok (el1, exec_plan sc plan, false)
+                  else if os_abort (exec_plan sc plan) then Fault Abort
+                  else Ok (el1, exec_plan sc plan, negb (os_bad (exec_plan sc plan))))).
+    { unfold save. change (os_bad sc) with false. cbn iota. rewrite Hh.
+      rewrite (force_sections_quiet junk _ _ _ [] Q0). cbn [bind rev_append].
+      rewrite Hs. cbn [force_segments bind rev_append]. rewrite <- Hs, with_parts_id, L1. cbn [bind negb]. rewrite Eh.
+      rewrite X1, Hx. unfold sc. rewrite save_header_new. fold sc. fold w0.
+      destruct (os_bad (exec_write sc w0)); cbn [negb]; [reflexivity|].
+      rewrite X2, Hcm.
+      rewrite (sections_plan_writable junk (e_enc h') h' [] (el_stream el1) (el_secs el1) [] [] Hso W1). cbn [bind rev_append app].
+      rewrite Eg. cbn [segments_plan map exec_plan fold_left].
+      fold plan_s. change (fold_left exec_write plan_s (exec_write sc w0)) with (exec_plan (exec_write sc w0) plan_s).
+      rewrite Eplan.
+      assert (Eel : with_stream (with_secs el1 (el_secs el1)) (el_stream el1) = el1) by (destruct el1; reflexivity).
+      rewrite Eel. reflexivity. }
+    split.
+    - intros Hfit. destruct (SIM Hfit) as (_ & _ & B1 & _ & A1 & _ & P1 & L & _).
+      assert (B0 : os_bad (exec_write sc w0) = false).
+      { destruct (os_bad (exec_write sc w0)) eqn:E; [|reflexivity].
+        pose proof (bad_sticky_plan plan_s _ E) as Hbad. rewrite Eplan in Hbad. congruence. }
+      exists (exec_plan sc plan). rewrite SV, B0, A1, B1. cbn [negb]. split; [reflexivity|].
+      unfold os_bytes. now rewrite P1, L.
+    - intros Hover el2 os Habs. destruct (OVF Hover) as (B1 & _).
+      rewrite SV in Habs.
+      destruct (os_bad (exec_write sc w0)); cbn [negb] in Habs; [discriminate|].
+      destruct (os_abort (exec_plan sc plan)); [discriminate|].
+      rewrite B1 in Habs. discriminate.
+  Qed.
+End Capped.
 
 (* ---------- the same for objects with one segment of automatically addressed members ---------- *)
 Section EndToEndOneseg.
